@@ -106,4 +106,7 @@ def sgrid_dataset(spec, kind, rng, with_comodo=False, entry_order_seed=None):
         attrs={rng.choice(["Conventions", "conventions"]): rng.choice(["SGRID-0.3", "CF-1.6, SGRID-0.3", "sgrid", "Sgrid-1", "CF-1.8 SGRID-0.3", "CF-1.8 ACDD-1.3 SGRID-0.3",
                                                                     "SGRID-0.3 CF-1.8", "CF-1.6,SGRID-0.3"])},
     )
+    if rng.random() < 0.25:
+        # the topology container may be held as a (scalar, non-index) coordinate instead of a data variable
+        ds = ds.set_coords("grid")
     return ds
